@@ -40,6 +40,7 @@ type config struct {
 	maxScale int32
 	bounds   []float64
 	nilB     bool
+	viaFunc  bool // the view is a hand-written function: the SDK does not validate what it returns
 }
 
 func (c *config) String() string {
@@ -50,6 +51,9 @@ func (c *config) String() string {
 	if c.expo {
 		return fmt.Sprintf("%s Base2ExponentialHistogram{MaxSize:%d, MaxScale:%d}", num, c.maxSize, c.maxScale)
 	}
+	if c.viaFunc {
+		return fmt.Sprintf("%s ExplicitBucketHistogram{Boundaries:%s} returned by a hand-written View function", num, boundsString(c.bounds))
+	}
 	return fmt.Sprintf("%s ExplicitBucketHistogram{Boundaries:%s}", num, boundsString(c.bounds))
 }
 
@@ -58,7 +62,7 @@ func (c *config) tag() string {
 	if c.expo {
 		return fmt.Sprintf("E%v/%d/%d|", c.isInt, c.maxSize, c.maxScale)
 	}
-	return fmt.Sprintf("H%v/%s|", c.isInt, boundsString(c.bounds))
+	return fmt.Sprintf("H%v%v/%s|", c.isInt, c.viaFunc, boundsString(c.bounds))
 }
 
 func boundsString(b []float64) string {
@@ -794,13 +798,21 @@ func newInstrument(cfg *config) (ins *instrument, err error) {
 		}
 	}()
 	rd := sdk.NewManualReader()
-	mp := sdk.NewMeterProvider(sdk.WithReader(rd), sdk.WithExemplarFilter(exemplar.AlwaysOffFilter),
-		sdk.WithView(sdk.NewView(sdk.Instrument{Name: "h"}, sdk.Stream{Aggregation: cfg.aggregation(),
-			// exemplars are off and not part of the property: a no-op reservoir keeps the default
-			// one (which seeds a math/rand source per attribute set) out of the inner loop
-			ExemplarReservoirProviderSelector: func(sdk.Aggregation) exemplar.ReservoirProvider {
-				return func(attribute.Set) exemplar.Reservoir { return noExemplars{} }
-			}})))
+	stream := sdk.Stream{Aggregation: cfg.aggregation(),
+		// exemplars are off and not part of the property: a no-op reservoir keeps the default
+		// one (which seeds a math/rand source per attribute set) out of the inner loop
+		ExemplarReservoirProviderSelector: func(sdk.Aggregation) exemplar.ReservoirProvider {
+			return func(attribute.Set) exemplar.Reservoir { return noExemplars{} }
+		}}
+	view := sdk.NewView(sdk.Instrument{Name: "h"}, stream)
+	if cfg.viaFunc {
+		view = func(in sdk.Instrument) (sdk.Stream, bool) {
+			st := stream
+			st.Name, st.Description, st.Unit = in.Name, in.Description, in.Unit
+			return st, in.Name == "h"
+		}
+	}
+	mp := sdk.NewMeterProvider(sdk.WithReader(rd), sdk.WithExemplarFilter(exemplar.AlwaysOffFilter), sdk.WithView(view))
 	m := mp.Meter("c07")
 	ins = &instrument{rd: rd}
 	if cfg.isInt {
@@ -1177,6 +1189,22 @@ func jobs(tierThorough bool) []jobSpec {
 					al = explicitIntAlphabet()
 				}
 				c.enumerate("full", cfg, al, fullLen)
+			}})
+		}
+	}
+	// the same through a hand-written View function, whose Stream the SDK uses as it is: lists with
+	// repeated and unsorted boundaries reach the aggregator (it sorts them); every value is still
+	// counted in the first bucket whose upper bound is >= the value
+	for bi, b := range [][]float64{{1, 1}, {10, 5, 0}, {1, 5, 5, 10}, {0, 0, 0, 5, 5, 5, 10, 10}, {5, 1, 5, 10, 1, 11, 5}} {
+		for _, isInt := range []bool{false, true} {
+			cfg := &config{isInt: isInt, bounds: b, viaFunc: true}
+			js = append(js, jobSpec{fmt.Sprintf("explicit-%s/view-func-bounds=%02d", map[bool]string{false: "f64", true: "i64"}[isInt], bi), func(c *checker) {
+				bounds(c)
+				al := explicitFloatAlphabet()
+				if cfg.isInt {
+					al = explicitIntAlphabet()
+				}
+				c.enumerate("full", cfg, al, pick(2, 3))
 			}})
 		}
 	}
